@@ -4,7 +4,7 @@
 # corpus totals, from the self_validation blocks of the thorough evidence.
 import collections, glob, json, os, re, sys
 ev = sys.argv[1] if len(sys.argv) > 1 else os.path.join(os.path.dirname(__file__), '..', 'evidence')
-sub = re.compile(r'^[a-cefghijkl]\d\d-m\d')
+sub = re.compile(r'^[a-cefghijkln]\d\d-m\d')
 def key(r):
     a, b = r[1:].split('.')
     return (int(a), int(b))
